@@ -184,6 +184,8 @@ def gen_saturation(seed: int, n: int) -> List[Scn]:
             else:
                 cfg["mws"] = [{rng.choice(["post", "postsave", "onerr"]): "gate"}]
             cfg["ack_async"] = rng.random() < 0.5
+            if not cfg["ack_async"] and cfg.get("ackable"):
+                cfg["ack_future"] = True        # acknowledgements that take time keep their message unfinished (and its slot taken)
         steps: List[Any] = []
         if rng.random() < 0.5:
             steps.append(["adv_rel", rng.choice([3, 9, 31])])    # idle polling first
